@@ -739,7 +739,8 @@ func compileAssignStmtLeft(context *funcContext, stmt *ast.AssignStmt) (int, []*
 				ac.ec.reg = reg
 				reg += compileExpr(context, reg, st.Object, ecnone(0))
 			} else {
-				compileExprWithKMVPropagation(context, st.Object, &reg, &ac.ec.reg)
+				// the table is the A operand of SETTABLE(KS): a register, never a constant
+				compileExprWithMVPropagation(context, st.Object, &reg, &ac.ec.reg)
 			}
 			ac.keyrk = reg
 			reg += compileExpr(context, reg, st.Key, ecnone(0))
